@@ -164,5 +164,24 @@ Inductive pool_step : pool -> pool -> Prop :=
 Inductive pool_reach : pool -> Prop :=
 | PR_init : pool_reach (mkPool 0 0 0 0)
 | PR_step p q : pool_reach p -> pool_step p q -> pool_reach q.
-(* join()'s wait predicate *)
+(* join()'s wait predicate. Every step above, and the evaluation of this predicate by join(), is ATOMIC in the model: that is
+   justified only if every read or write of `tasks`, `active`, `stop` in the constructor's worker loop, enqueue, join and
+   the destructor happens inside a scope that holds a lock on queue_mutex (in join: the unique_lock exists before the
+   predicate is evaluated for the first time, and wait() re-evaluates it under the lock). Taking the mutex in join is also
+   what orders the workers' writes to rows and watch sets (released by the `active--` critical section) before the caller's
+   later reads. The access table below is regenerated from thread_pool.cpp on every run and must satisfy pool_table_ok. *)
 Definition join_may_return (p : pool) : Prop := active p = 0%nat /\ queued p = 0%nat.
+
+Inductive pfn := PWorker | PEnqueue | PJoin | PDtor | POtherFn.
+Inductive pvar := PTasks | PActive | PStop.
+Record paccess := mkPA { pa_fn : pfn; pa_var : pvar; pa_locked : bool }.
+Definition pfn_eqb (a b : pfn) : bool := match a, b with PWorker, PWorker | PEnqueue, PEnqueue | PJoin, PJoin | PDtor, PDtor | POtherFn, POtherFn => true | _, _ => false end.
+Definition pvar_eqb (a b : pvar) : bool := match a, b with PTasks, PTasks | PActive, PActive | PStop, PStop => true | _, _ => false end.
+Definition has_access (t : list paccess) (f : pfn) (v : pvar) : bool := existsb (fun e => pfn_eqb (pa_fn e) f && pvar_eqb (pa_var e) v) t.
+(* every access under the lock; no access from an unknown function; join does look at both counters, the worker and enqueue
+   do touch the queue (an empty or truncated table would be vacuous) *)
+Definition pool_table_ok (t : list paccess) : bool :=
+  forallb pa_locked t &&
+  forallb (fun e => negb (pfn_eqb (pa_fn e) POtherFn)) t &&
+  has_access t PJoin PActive && has_access t PJoin PTasks && has_access t PWorker PTasks && has_access t PWorker PActive &&
+  has_access t PEnqueue PTasks.
